@@ -159,7 +159,31 @@ thread_local! {
     static TLS_INIT: std::cell::Cell<bool> = const { std::cell::Cell::new(false) };
     /// thread-local values created and not yet dropped
     static TLS_LIVE: std::cell::Cell<i64> = const { std::cell::Cell::new(0) };
+    /// stack / closure tokens created and not yet dropped
+    static TOK_LIVE: std::cell::Cell<i64> = const { std::cell::Cell::new(0) };
 }
+
+/// A value that lives on a task's stack (for the whole body) or inside the closure of a spawned thread: counted, so that
+/// values surviving the end of their execution can be seen (stacks of suspended tasks must be unwound, closures of tasks
+/// that never started must be dropped).
+struct LiveToken;
+impl LiveToken {
+    fn new() -> Self {
+        TOK_LIVE.with(|f| f.set(f.get() + 1));
+        LiveToken
+    }
+}
+impl Drop for LiveToken {
+    fn drop(&mut self) {
+        TOK_LIVE.with(|f| f.set(f.get() - 1));
+    }
+}
+
+#[derive(Clone, Debug, PartialEq)]
+struct VLabel(u64);
+#[derive(Debug)]
+struct VTag(u64);
+impl shuttle_engine::runtime::task::Taggable for VTag {}
 
 impl TlsVal {
     fn new(slot: usize) -> Self {
@@ -516,6 +540,7 @@ fn lock_code<G, P>(r: Result<G, std::sync::PoisonError<P>>, unwrap: impl FnOnce(
 }
 
 fn run_body(p: Arc<Prog>, objs: Arc<Vec<Obj>>, b: usize) -> u64 {
+    let _on_stack = LiveToken::new();
     drive_ready(run_ops(p, objs, b, Kind::Thread));
     // the value handed to the joiner: a function of the thread's own id
     1000 + me() as u64
@@ -554,9 +579,14 @@ async fn run_ops_inner(p: Arc<Prog>, objs: Arc<Vec<Obj>>, b: usize, kind: Kind) 
                 let (p2, o2) = (p.clone(), objs.clone());
                 // odd bodies are spawned through a Builder with a name
                 let name = if j % 2 == 1 { Some(format!("b{j}")) } else { None };
+                let tok = LiveToken::new();      // owned by the closure: dropped when it ends, or with it if it never starts
+                let f = move || {
+                    let _in_closure = tok;
+                    run_body(p2, o2, j)
+                };
                 let h = match &name {
-                    Some(n) => thread::Builder::new().name(n.clone()).spawn(move || run_body(p2, o2, j)).unwrap(),
-                    None => thread::spawn(move || run_body(p2, o2, j)),
+                    Some(n) => thread::Builder::new().name(n.clone()).spawn(f).unwrap(),
+                    None => thread::spawn(f),
                 };
                 let tid: usize = h.thread().id().into();
                 assert_eq!(h.thread().name().map(|s| s.to_string()), name, "vharness: JoinHandle::thread().name()");
@@ -1156,7 +1186,7 @@ thread_local! {
 fn snapshot_iteration() {
     let sch = CurrentSchedule::get_schedule();
     // values of the finished execution that are still alive when the next one is about to start
-    log(format!("LIVE={}", TLS_LIVE.with(|f| f.get())));
+    log(format!("LIVE={}.{}", TLS_LIVE.with(|f| f.get()), TOK_LIVE.with(|f| f.get())));
     let log = LOG.with(|l| {
         let s = l.borrow().join(" ");
         l.borrow_mut().clear();
@@ -1194,10 +1224,21 @@ impl<S: Scheduler> Scheduler for Rec<S> {
 fn run_recorded<S: Scheduler + 'static>(sched: S, config: Config, prog: Arc<Prog>) -> (Vec<(String, Schedule)>, Option<String>) {
     LOG.with(|l| l.borrow_mut().clear());
     ITER_DATA.with(|d| d.borrow_mut().clear());
+    // a failing run leaks what its tasks held (the process of a failing test is about to end): count from zero per run
+    TLS_LIVE.with(|f| f.set(0));
+    TOK_LIVE.with(|f| f.set(0));
     let rec = Rec { inner: sched, started: false };
     let p2 = prog.clone();
     let res = catch_unwind(AssertUnwindSafe(|| {
         Runner::new(rec, config).run(move || {
+            // per-execution bookkeeping of the runtime must start empty: the main task's label and tag are read before
+            // they are set, and set before the body runs
+            let me_ = shuttle::current::me();
+            let lbl = shuttle::current::get_label_for_task::<VLabel>(me_).map(|l| l.0 as i64).unwrap_or(-1);
+            let tag = shuttle::current::get_tag_for_current_task().map(|_| 1).unwrap_or(0);
+            log(format!("META={}.{}", lbl, tag));
+            shuttle::current::set_label_for_task(me_, VLabel(7));
+            shuttle::current::set_tag_for_current_task(Arc::new(VTag(9)));
             let objs = start_exec(&p2);
             run_body(p2.clone(), objs, 0);
         })
